@@ -53,7 +53,7 @@ def required_reach(tier: str) -> dict[str, int]:
     r.update({f"pos.last:{c}": 1 for c in LETTERS})
     r.update({f"pos.middle:{c}": 1 for c in LETTERS})
     r.update({"outcome.return": 100, "outcome.missing": 100, "outcome.mismatch": 10, "outcome.malformed": 10, "outcome.error": 1,
-              "reconnects": 50, "long.pending-limit-crossed": 1, "long.pending-below-limit": 1, "long.silence-limit-crossed": 1,
+              "reconnects": 50, "form.raw": 100, "form.typed": 100, "long.pending-limit-crossed": 1, "long.pending-below-limit": 1, "long.silence-limit-crossed": 1,
               "long.silence-below-limit": 1, "override.timeout": 100, "override.max_retry": 100})
     return r
 
@@ -66,7 +66,8 @@ def event_bytes(letter: str, idx: int) -> tuple[Any, ...]:
     if letter == "P":
         return ("reply", bytes([0x7F, REQ[0], 0x78]))
     if letter == "M":
-        return ("reply", bytes([0x50, 0x01]) if idx % 2 == 0 else bytes([0x7F, 0x10, 0x31]))
+        # reply of another service / negative reply naming another service / same service but another data identifier (a stale reply)
+        return ("reply", [bytes([0x50, 0x01]), bytes([0x7F, 0x10, 0x31]), bytes([0x62, 0x43, 0x21, idx & 0xFF])][idx % 3])
     if letter == "X":
         return ("reply", bytes([0x62, 0x12]) if idx % 2 == 0 else bytes([0x7F, REQ[0], 0x01]))
     if letter == "N":
@@ -76,7 +77,7 @@ def event_bytes(letter: str, idx: int) -> tuple[Any, ...]:
     raise AssertionError(letter)
 
 
-async def one_run(script: list[str], max_retry: int, timeout: float, override: bool) -> dict[str, Any]:
+async def one_run(script: list[str], max_retry: int, timeout: float, override: bool, raw: bool = False) -> dict[str, Any]:
     import asyncio
 
     from gallia.services.uds.core import service
@@ -93,7 +94,8 @@ async def one_run(script: list[str], max_retry: int, timeout: float, override: b
         cfg = None
     loop = asyncio.get_running_loop()
     t0 = loop.time()
-    req = service.ReadDataByIdentifierRequest(0x1234)
+    # the same request in its typed form and as the raw request `send_raw()` builds: matching must be equally strict
+    req = service.RawRequest(REQ) if raw else service.ReadDataByIdentifierRequest(0x1234)
     out: dict[str, Any] = {}
     try:
         resp = await cl.request(req, cfg)
@@ -121,10 +123,13 @@ def classify(out: dict[str, Any]) -> tuple[str, Any]:
     return "raises:" + type(e).__name__, None
 
 
-def check_case(ctx: Any, script: list[str], max_retry: int, timeout: float, override: bool) -> None:
-    case = {"script": "".join(script) if len(script) <= 40 else rle(script), "max_retry": max_retry, "timeout": timeout, "override": override}
+def check_case(ctx: Any, script: list[str], max_retry: int, timeout: float, override: bool, raw: bool | None = None) -> None:
+    if raw is None:
+        raw = override  # every script runs in both request forms (typed with client defaults, raw with per-request overrides)
+    case = {"script": "".join(script) if len(script) <= 40 else rle(script), "max_retry": max_retry, "timeout": timeout, "override": override, "raw": raw}
+    ctx.reach("form.raw" if raw else "form.typed")
     nontrivial = any(c not in "FN" for c in script)
-    ctx.case(("".join(script), max_retry, timeout, override), nontrivial=nontrivial)
+    ctx.case(("".join(script), max_retry, timeout, override, raw), nontrivial=nontrivial)
     if script:
         ctx.reach(f"pos.first:{script[0]}")
         ctx.reach(f"pos.last:{script[-1]}")
@@ -134,7 +139,7 @@ def check_case(ctx: Any, script: list[str], max_retry: int, timeout: float, over
         ctx.reach("override.timeout")
         ctx.reach("override.max_retry")
     try:
-        out = vtime.run(one_run(script, max_retry, timeout, override))
+        out = vtime.run(one_run(script, max_retry, timeout, override, raw))
     except vtime.Deadlock:
         ctx.violation("client/blocks-forever", "request() can never complete (nothing scheduled, nothing readable)", case)
         return
@@ -243,7 +248,7 @@ def run(ctx: Any, params: dict[str, Any]) -> None:
             mr = rng.randrange(4)
             override = rng.random() < 0.5
             timeout = rng.choice([0.1, 0.3, 2.0, 30.0])
-            check_case(ctx, script, mr, timeout, override)
+            check_case(ctx, script, mr, timeout, override, rng.random() < 0.5)
             if i % 400 == 0:
                 ctx.sample({"script": "".join(script), "max_retry": mr, "timeout": timeout, "override": override})
             if ctx.out_of_time():
@@ -282,4 +287,4 @@ def replay(ctx: Any, witness: dict[str, Any]) -> None:
     script: list[str] = []
     for m in re.finditer(r"([A-Z])(?:\*(\d+))?", s):
         script += [m.group(1)] * int(m.group(2) or 1)
-    check_case(ctx, script, witness["max_retry"], witness["timeout"], witness["override"])
+    check_case(ctx, script, witness["max_retry"], witness["timeout"], witness["override"], witness.get("raw"))
